@@ -76,13 +76,20 @@ def _codec_batch(strings):
 
 def codec(rep):
     strings = []
-    for cfg in ('Codec.cfg', 'Codec2.cfg'):
+    for cfg in ('Codec.cfg', 'Codec2.cfg', 'Codec3.cfg'):
         r = run_tlc('Codec', cfg, timeout=600)
         rep.add_tlc(r, 'Codec/%s: all strings; RoundTripOK PlainUntouched' % cfg)
         o = parse_obl(r['out'])
         if cfg == 'Codec2.cfg':
             rnd = random.Random(seed() + 5)
             o = [x for x in o if x['esc']] + rnd.sample(o, 300)
+        if cfg == 'Codec3.cfg' and tier() == 'quick':
+            # leading white space, {=, sheet-qualified error names: every string the
+            # specification says needs escaping, and a sample of the others
+            rnd = random.Random(seed() + 6)
+            esc = [x for x in o if x['esc']]
+            rnd.shuffle(esc)
+            o = esc[:5000] + rnd.sample(o, 1500)
         strings += [''.join(chr(c) for c in x['s']) for x in o if x['s']]
     strings = sorted(set(strings))
     res = pmap(_codec_batch, shards(strings, NCPU * 2), chunk=1)
